@@ -30,6 +30,7 @@ META = {
                     "path sequence and read are opaque objects that record the slice taken from them"],
 }
 META["explanation"] += "  parsed/record: the record comes from text through the real GAF reader, with a solver-chosen subset of eight optional fields whose values contain ':', '%', blanks, '=' and ','."
+META["explanation"] += '  Every query records the reference of the aligner object it was handed to, so a reused aligner is judged by the slice it was built on.'
 
 OPS = {0: "M", 1: "I", 2: "D", 8: "X"}
 
@@ -159,6 +160,7 @@ def make_aligner(tuples, calls):
 
     class Aligner:
         def __init__(self, ref, *more, **options):
+            self.ref = ref
             calls.append(("ref", ref))
             if more or options:
                 calls.append(("options", more, options))
@@ -171,7 +173,7 @@ def make_aligner(tuples, calls):
             self.cigarstring = cs
 
         def __call__(self, q, clip_cigar=False, **options):
-            calls.append(("query", q, clip_cigar))
+            calls.append(("query", q, clip_cigar, self.ref))
             if options:
                 calls.append(("options", (), options))
             return Res()
@@ -366,7 +368,8 @@ def build(params):
         if n_aligned != want:
             return "%d records realigned, %d have at most 60000 read bases" % (n_aligned, want)
         # every realigned record is aligned against ITS OWN slice of the path and of its own read
-        refs = [c[1] for c in calls if c[0] == "ref"]
+        # the reference of the aligner object each query was handed to (an aligner may be reused only for the same slice)
+        refs = [c[3] for c in calls if c[0] == "query"]
         qs = [c[1] for c in calls if c[0] == "query"]
         exp = [(i, ps) for i, (qe, ps) in enumerate(((qe0, ps0), (qe1, ps1))) if not (qe > 60000)]
         for (i, ps), r, q in zip(exp, refs, qs):
